@@ -528,6 +528,68 @@ def x_atan2(e, st, fr, a, name):
     raise Inconclusive("atan2 on symbolic values")
 
 
+# ---------------------------------------------------------------- libc number <-> text (concrete values only; the libc pair
+# printf("%.17g") / strtod is trusted, not re-verified)
+import re as _re
+
+
+def x_vp_fmt_double(e, st, fr, a, name):
+    out, cap, x, conv, prec, flags = a
+    if x.__class__ is not float:
+        raise Inconclusive("formatting of a symbolic double (libc %g is outside the encodable code)")
+    conv = chr(_int(e, st, conv, 'conv')); prec = sx(_int(e, st, prec, 'prec'), 32); flags = _int(e, st, flags, 'flags')
+    fmt = '%' + ('+' if flags & 1 else '') + (' ' if flags & 2 else '') + ('#' if flags & 4 else '') + ('.%d' % prec if prec >= 0 else '') + conv
+    txt = (fmt % x).encode('latin1')
+    cap = _int(e, st, cap, 'cap')
+    txt = txt[:max(cap - 1, 0)]
+    o = _cptr(e, st, out, len(txt) + 1, 'vp_fmt_double')
+    for i, b in enumerate(txt + b'\0'):
+        e.store(st, Ptr(o.obj, o.off + i), b, 'i', 1, 8)
+    return len(txt)
+
+
+_NUMRE = _re.compile(rb'[ \t\n\v\f\r]*([-+]?(?:(?:\d+\.?\d*|\.\d+)(?:[eE][-+]?\d+)?|inf(?:inity)?|nan))', _re.I)
+
+
+def x_atof(e, st, fr, a, name):
+    p0 = _cptr(e, st, a[0], 1, name)
+    txt = e.read_cstr(st, p0)
+    if txt is None:
+        # symbolic bytes in a number text: fork over their feasible values (the parser has already constrained them
+        # to digits / sign / exponent characters); more than 64 values -> inconclusive
+        o = e.obj_of(st, p0, name)
+        out = bytearray(); i = p0.off
+        while True:
+            if i >= o.size: raise Violation('memory', "%s reads past the end of %s" % (name, o.name))
+            c = o.data[i]
+            if c is None: raise Violation('uninit', "%s reads uninitialised memory" % name)
+            if c.__class__ is not int:
+                c = e.concretize(st, e.byte_expr(c), what='byte of number text')
+            if c == 0: break
+            out.append(c); i += 1
+        txt = bytes(out)
+    m = _NUMRE.match(txt)
+    v = 0.0; end = 0
+    if m:
+        try: v = float(m.group(1)); end = m.end()
+        except ValueError: v = 0.0
+    if name == 'strtod' and len(a) > 1 and a[1].__class__ is Ptr and a[1].obj:
+        e.store(st, a[1], Ptr(a[0].obj, a[0].off + end), 'p', 8, 64)
+    return v
+
+
+def x_localeconv(e, st, fr, a, name):
+    lc = st.env.get('lconv')
+    if lc is None:
+        dp = st.alloc(2, 'global', 'decimal_point'); o = st.objs[dp.obj]; o.data[0] = 46; o.data[1] = 0
+        p = st.alloc(96, 'global', 'lconv', 0)
+        o = st.objs[p.obj]
+        o.data[0:8] = [(dp, i) for i in range(8)]
+        lc = p.obj
+        st.env['lconv'] = lc
+    return Ptr(lc, 0)
+
+
 # ---------------------------------------------------------------- clock / process
 def _tick(e, st):
     t = st.env.get('clock', 1700000000 * 1000000) + e.clock_step_us
@@ -718,6 +780,7 @@ def register(e):
         X[n] = _m1(f)
     X['gettimeofday'] = x_gettimeofday; X['clock_gettime'] = x_clock_gettime; X['time'] = x_time; X['getpid'] = x_getpid
     X['sleep'] = x_sleep; X['usleep'] = x_sleep; X['getenv'] = x_null; X['setlocale'] = x_null; X['signal'] = x_null
+    X['vp_fmt_double'] = x_vp_fmt_double; X['atof'] = x_atof; X['strtod'] = x_atof; X['localeconv'] = x_localeconv
     e.clock_step_us = 1000000
     e.ext_override = set()
 
